@@ -25,7 +25,7 @@ def PcsW (app : App) (want : Nat) (fu : FetchUnit) (D : List Word) (slack : Nat)
   ∃ h, PcChain h D ∧ fu.pc = pcOf (h + D.length) ∧
     (h = want ∨ (app.instrs.length ≤ h ∧ app.instrs.length ≤ want)) ∧
     h + D.length + slack ≤ app.instrs.length + 2 ∧
-    (fu.complete = true → NoJmp app → app.instrs.length ≤ h + D.length)
+    (fu.complete = true → app.instrs.length ≤ h + D.length)
 
 theorem Pcs.weak {app : App} {want : Nat} {fu : FetchUnit} {D : List Word} {slack : Nat} (h : Pcs app want fu D slack) :
     PcsW app want fu D slack := by
@@ -58,10 +58,10 @@ theorem fuEmit_pcs (app : App) (hsm : app.instrs.length < 250) (want : Nat) (fu 
   · split
     · rename_i hge
       simp only [decide_eq_true_eq] at hge
-      intro _ _; simp only [List.length_append, List.length_cons, List.length_nil]; omega
+      intro _; simp only [List.length_append, List.length_cons, List.length_nil]; omega
     · rename_i hlt
-      intro hc hj
-      have := hcm hc hj
+      intro hc
+      have := hcm hc
       simp only [List.length_append, List.length_cons, List.length_nil]; omega
   · split <;> rfl
   · split
@@ -404,7 +404,7 @@ theorem decodeLoop_front (app : App) (hsm : app.instrs.length < 250) (ctx : Mode
         · rw [hin']; omega
         · rw [hin']; intro hc; have := a5 hc; omega
         · rw [hin']; intro hc; have := a6 hc; omega
-        · rw [hin']; intro hc hj; have := a7 hc hj; omega
+        · rw [hin']; intro hc; have := a7 hc; omega
       · simp only [hge, if_false, bind, Except.bind] at hr
         have hw : h0 = k + outBus.inside.length := by
           rcases a3 with a3 | a3
@@ -432,7 +432,7 @@ theorem decodeLoop_front (app : App) (hsm : app.instrs.length < 250) (ctx : Mode
                 · rw [hin']; omega
                 · rw [hin']; intro hc; have := a5 hc; omega
                 · rw [hin']; intro hc; have := a6 hc; omega
-                · rw [hin']; intro hc hj; have := a7 hc hj; omega)
+                · rw [hin']; intro hc; have := a7 hc; omega)
             hr
           refine ⟨t1, t2, t3, ⟨i, pcOf h0, pcOf h0 + ctx.sequenceID * 1000#32⟩ :: added, ?_, ?_⟩
           · rw [t4, inside_add, List.append_assoc]; rfl
